@@ -303,6 +303,12 @@ FLAG_PROGRAMS = {
     "while-cond-n-in-lambda": [_n(4), ["lam", None, [_n(0), ["while", [["el", ":"], ["el", "n"], ["el", "<"]], [["el", "›"]]]]], ["el", "†"]],
     "while-cond-n-top": [_n(0), ["while", [["el", ":"], ["el", "n"], _n(3), ["el", "+"], ["el", "<"]], [["el", "›"]]]],
     "while-body-n": [_n(2), ["while", [["el", ":"]], [["el", "n"], ["el", ","], ["el", "‹"]]]],
+    # a sort / map / filter lambda gives a new list: the argument seen through another reference is unchanged
+    "sort-lambda-argument-via-variable": [["list", [[_n(3)], [_n(1)], [_n(2)]]], ["set", "x"], ["get", "x"], ["srt", [["el", "N"]]], ["el", "_"], ["get", "x"]],
+    "sort-lambda-argument-via-dup": [["list", [[_n(3)], [_n(1)], [_n(2)]]], ["el", ":"], ["srt", [["el", "N"]]], ["el", "_"]],
+    "sort-lambda-argument-via-loop-item": [["list", [[["list", [[_n(3)], [_n(1)], [_n(2)]]]]]], ["for", None, [["el", "n"], ["srt", []], ["el", "_"], ["el", "n"]]]],
+    "map-lambda-argument-via-variable": [["list", [[_n(3)], [_n(1)]]], ["set", "x"], ["get", "x"], ["map", [["el", "d"]]], ["el", "_"], ["get", "x"]],
+    "filter-lambda-argument-via-dup": [["list", [[_n(3)], [_n(0)], [_n(2)]]], ["el", ":"], ["flt", []], ["el", "_"]],
     "while-cond-n-in-map": [_n(3), ["map", [_n(0), ["while", [["el", ":"], ["el", "n"], ["el", "<"]], [["el", "›"]]]]]],
 }
 
